@@ -136,9 +136,12 @@ type Ident struct {
 }
 
 const (
-	TI0 = 100
-	TI1 = 101
+	TI0   = 100
+	TI1   = 101
+	TVoid = 102 // struct{}: the type under which functions without a service result are registered
 )
+
+var TypeVoid = reflect.TypeOf((*struct{})(nil)).Elem()
 
 func (id Ident) RType() reflect.Type {
 	switch {
@@ -146,6 +149,8 @@ func (id Ident) RType() reflect.Type {
 		return TypeI0
 	case id.Type == TI1:
 		return TypeI1
+	case id.Type == TVoid:
+		return TypeVoid
 	case id.Type >= NS:
 		return TypeA[id.Type-NS]
 	}
